@@ -387,6 +387,7 @@ func runScript(r *vlib.Run, sp scriptSpec, jm *jitterMon) {
 		switch {
 		case len(reps) >= 2:
 			w.Duplicates++
+			r.Count("duplicates_observed/"+baseName(sp.Name), 1)
 			s.violation("duplicate-reply/"+tr, fmt.Sprintf("%d replies to one admitted %s query for %s %s (second %.0f ms after the first)",
 				len(reps), tr, q.Name, dns.TypeToString[q.Qtype], float64(reps[1].at.Sub(reps[0].at).Microseconds())/1000), q, reps, nil)
 		case len(reps) == 1:
